@@ -42,18 +42,88 @@ theorem wf_of_WF {nn : NNet} (w : WF nn) : nn.wf = true := by
         obtain ⟨a1, a2, a3⟩ := w.fwdOut i hi p l hp
         simp [a1, a2, a3]
 
-/-- the certificate for `substitute` in regular use -/
+theorem removeDangling_kept (nn : NNet) (own : List Nat) : ∀ (fuel : Nat) (stack : List (Option Nat)), stack.length < fuel →
+    (stack.all fun o => match o with
+      | none => true
+      | some root => keptRoot nn own root) = true → removeDangling fuel nn own stack = some nn
+  | 0, _, h, _ => by omega
+  | fuel + 1, [], _, _ => by simp [removeDangling]
+  | fuel + 1, none :: rest, h, ha => by
+    simp only [removeDangling]
+    exact removeDangling_kept nn own fuel rest (by simpa using h) (by simpa using ha)
+  | fuel + 1, some root :: rest, h, ha => by
+    simp only [List.all_cons, Bool.and_eq_true] at ha
+    have ih := removeDangling_kept nn own fuel rest (by simpa using h) ha.2
+    have hk := ha.1
+    simp only [keptRoot, Bool.or_eq_true] at hk
+    simp only [removeDangling]
+    split
+    · exact ih
+    · rename_i h1
+      split
+      · exact ih
+      · rename_i h2
+        split
+        · exact ih
+        · rename_i h3
+          split
+          · exact ih
+          · rename_i h4
+            exfalso
+            rcases hk with ((hk | hk) | hk) | hk
+            · exact h1 hk
+            · exact h2 hk
+            · exact h3 hk
+            · exact h4 hk
+
+/-- when nothing is removed the result is the circuit `substituteCore` builds -/
+theorem substitute_keepsAll_eq (h : NNet) (c : Nat) (m h' : NNet) (hr : keepsAllB h c m = true) (he : substitute h c m = some h') :
+    ∃ sh dn map dang, implShape m = some sh ∧ sh.des = some dn ∧ substituteCore h c m = some (h', map, dang) ∧
+      NoIgnored m (sh.inPorts.zip (padTo (h.net.node c).ins sh.inPorts.length)) := by
+  unfold keepsAllB at hr
+  split at hr
+  · rename_i sh h5 map dang hs hcore
+    simp only [Bool.and_eq_true] at hr
+    obtain ⟨⟨h1, h2⟩, h3⟩ := hr
+    cases hd : sh.des with
+    | none => rw [hd] at h1; simp at h1
+    | some dn =>
+      unfold substitute at he
+      rw [hcore] at he
+      dsimp only at he
+      rw [removeDangling_kept h5 _ _ dang (by omega) h3] at he
+      cases (Option.some.inj he)
+      refine ⟨sh, dn, map, dang, hs, hd, hcore, ?_⟩
+      intro p hp hsome
+      have := List.all_eq_true.mp h2 p hp
+      simpa [hsome] using this
+  · exact absurd hr (by simp)
+
+/-- regular use is a use in which nothing is removed -/
+theorem regularB_keepsAll (h : NNet) (c : Nat) (m h' : NNet) (hr : regularB h c m = true) (he : substitute h c m = some h') :
+    keepsAllB h c m = true := by
+  obtain ⟨sh, dn, map, hs, hd, hcore, hni⟩ := substitute_regular_eq h c m h' hr he
+  unfold keepsAllB
+  rw [hs, hcore]
+  simp only [hd, Option.isSome_some, Bool.true_and, List.all_nil, Bool.and_true, List.all_eq_true, Bool.or_eq_true,
+    Bool.not_eq_true']
+  intro p hp
+  cases hp2 : p.2 with
+  | none => left; rfl
+  | some x =>
+    right
+    have := hni p hp (by rw [hp2]; rfl)
+    simpa using this
+
+/-- the certificate for `substitute` when nothing is removed -/
 theorem substitute_cert (h m h' : NNet) (c : Nat) (hw : WF h) (mw : WF m) (hc : c < h.net.nodes.size)
     (hio : h.net.io.contains c = false) (hcf : (h.net.node c).isFork = false)
-    (hr : regularB h c m = true) (hok : implOKB m = true) (he : substitute h c m = some h') :
+    (hr : keepsAllB h c m = true) (hok : implOKB m = true) (he : substitute h c m = some h') :
     ∃ sh dn map, SubstCert h c m sh dn map h' := by
-  obtain ⟨sh, dn, map, hs, hd, hcore, hni⟩ := substitute_regular_eq h c m h' hr he
-  obtain ⟨sh', dn', hs', hd', _, hlen, hall⟩ := regularB_spec h c m hr
-  have : sh' = sh := Option.some.inj (hs'.symm.trans hs)
-  subst this
-  obtain ⟨k1, k2, k3, k4⟩ := implOKB_spec m sh' dn hs hd hok
-  exact ⟨sh', dn, map, substituteCore_cert h c m sh' dn hw mw hc (by simpa using hio) hcf hs hd k1 k2 k3 k4 hni hlen hall
-    h' map [] hcore⟩
+  obtain ⟨sh, dn, map, dang, hs, hd, hcore, hni⟩ := substitute_keepsAll_eq h c m h' hr he
+  obtain ⟨k1, k2, k3, k4⟩ := implOKB_spec m sh dn hs hd hok
+  exact ⟨sh, dn, map, substituteCore_cert h c m sh dn hw mw hc (by simpa using hio) hcf hs hd k1 k2 k3 k4 hni
+    h' map dang hcore⟩
 
 end KV.Transform
 
